@@ -322,7 +322,7 @@ def atNinf : Term α → α
   | .concave i e h => if i < e then 0 else h
   | .constant k => k
   | .cosine .. => 0
-  | .discrete pts h => h * (match pts with | [] => 0 | p :: _ => p.2)
+  | .discrete pts h => h * Op.firstY pts
   | .gaussian .. => 0
   | .gaussianProduct .. => 0
   | .piShape .. => 0
